@@ -88,15 +88,31 @@ def rule_r1(chk, facts, P):
         if r.name in ('NULL_Restorer', 'INCLUDE_Restorer'):
             continue
         pops = [(bb, ii, ll) for bb, ii, ll, ex in r.elems() if is_pop(ex)]
-        ok = len(pops) == 1 and r.guarded(pops[0][0], pops[0][1], lambda l: edge_has_atom(l, lambda a: a[0] == 'z' and glob_field(a[1])))[0]
+
+        def first_clear(a):
+            return a[0] == 'z' and a[1][0] == 'm' and a[1][2].endswith('.First')
+        ok = len(pops) == 1 and r.guarded(pops[0][0], pops[0][1], lambda l: edge_has_atom(l, lambda a: a[0] == 'z' and glob_field(a[1])))[0] \
+            and r.guarded(pops[0][0], pops[0][1], lambda l: edge_has_atom(l, first_clear))[0]
         if ok:
-            # every path with !GlobalSymbols passes the pop
+            # every path with !GlobalSymbols and !First passes the pop
             for s_, d_, l in r.edges():
-                if l is not None and edge_has_atom(l, lambda a: a[0] == 'z' and glob_field(a[1])):
+                if l is not None and edge_has_atom(l, first_clear):
                     if not any(is_pop(ex) for l3, ex in r.blocks[d_]['elems']):
                         ok = ok and r.must_pass(d_, -1, is_pop)[0]
-        chk.ob('C11-R1', 'as.c:%s:closes-space' % r.name, ok, r.loc(), 'pops under !GlobalSymbols' if ok else
-               '%s does not close the private symbol space exactly when one was opened' % r.name)
+        chk.ob('C11-R1', 'as.c:%s:closes-space' % r.name, ok, r.loc(), 'pops under !GlobalSymbols && !First' if ok else
+               '%s does not close the private symbol space exactly when one was opened (the processors open it with the '
+               'first delivered body line and clear tag->First then; an expansion with an empty body never does)' % r.name)
+    # every processor that opens a space records it in tag->First
+    for pn in BODY_PROCS:
+        f = facts.func('as.c', pn)
+        for b, i, ln, ex in f.elems():
+            if is_push_new(ex):
+                def clears(e2):
+                    return any(is_assign(m) and strip(m[2])[0] == 'm' and strip(m[2])[2].endswith('.First') and const_val(m[3]) == 0
+                               for m in walk_own(e2))
+                ok = f.must_pass(b, i, clears)[0]
+                chk.ob('C11-R1', 'as.c:%s:records-open-space' % pn, ok, f.loc(ln), 'tag->First cleared with the push' if ok else
+                       '%s opens a symbol space without clearing tag->First: the restorer will not close it' % pn)
 
 
 ENTRY = ['ExpandIRP', 'ExpandIRPN', 'ExpandIRPC', 'ExpandREPT', 'ExpandWHILE', 'ExpandINCLUDE', 'ExpandSHIFT',
